@@ -26,6 +26,7 @@ ASSUMPTIONS = [
 ]
 
 GUARD_S = 10.0
+OPT_FUEL = 20000
 
 
 # --------------------------------------------------------------------------- generators
@@ -366,9 +367,13 @@ class DocEncoder:
     def __init__(self, schema, it):
         self.schema, self.it, self.nfields = schema, it, 0
         self.collisions = False
+        self.setcode = {}   # id(SelectionSetNode) -> code of its identity in the memoised model
+        self.order = []     # definitions in document order: (is operation, index)
 
-    def sels(self, sset, parent):
+    def sels(self, sset, parent, code=None):
         """parent: a GraphQL named type (composite)."""
+        if code is not None:
+            self.setcode[id(sset)] = code
         from graphql import get_named_type, is_composite_type, is_interface_type, is_object_type
         from graphql.language import FieldNode, FragmentSpreadNode, InlineFragmentNode
         it = self.it
@@ -393,6 +398,7 @@ class DocEncoder:
                 an = [a.name.value for a in args]
                 if len(set(an)) != len(an):
                     raise OutOfFragment("duplicate argument")
+                fid_now = self.nfields
                 out += [0, self.nfields, it.of(rn), it.of(name), len(args)]
                 for a in args:
                     out += [it.of(a.name.value)] + enc_value(a.value, it)
@@ -404,9 +410,10 @@ class DocEncoder:
                     nt = get_named_type(ftype)
                     if not is_composite_type(nt):
                         raise OutOfFragment("selection on leaf")
-                    out += self.sels(s.selection_set, nt)
+                    out += self.sels(s.selection_set, nt, 4 * fid_now + 2)
             elif isinstance(s, InlineFragmentNode):
                 self.nfields += 1  # inline fragments share the id counter of fields
+                iid_now = self.nfields
                 if s.type_condition is None:
                     t = parent
                     out += [1, self.nfields, 0, 0]
@@ -415,7 +422,7 @@ class DocEncoder:
                     if t is None or not is_composite_type(t):
                         raise OutOfFragment("bad type condition")
                     out += [1, self.nfields, 1, it.of(t.name)]
-                out += self.sels(s.selection_set, t)
+                out += self.sels(s.selection_set, t, 4 * iid_now + 3)
             elif isinstance(s, FragmentSpreadNode):
                 if getattr(s, "arguments", None):
                     raise OutOfFragment("spread arguments")
@@ -439,14 +446,17 @@ class DocEncoder:
                 root = self.schema.get_root_type(d.operation)
                 if root is None:
                     raise OutOfFragment("no root type")
-                ops.append([self.it.of(root.name)] + self.sels(d.selection_set, root))
+                self.order.append((1, len(ops)))
+                ops.append([self.it.of(root.name)] + self.sels(d.selection_set, root, 4 * len(ops)))
             elif isinstance(d, FragmentDefinitionNode):
                 if getattr(d, "variable_definitions", None):
                     raise OutOfFragment("fragment variables")
                 t = self.schema.get_type(d.type_condition.name.value)
                 if t is None or not is_composite_type(t):
                     raise OutOfFragment("bad type condition")
-                frs.append([self.it.of("#" + d.name.value), self.it.of(t.name)] + self.sels(d.selection_set, t))
+                self.order.append((0, len(frs)))
+                fcode = self.it.of("#" + d.name.value)
+                frs.append([fcode, self.it.of(t.name)] + self.sels(d.selection_set, t, 4 * fcode + 1))
             else:
                 raise OutOfFragment("non-executable definition")
         out = [len(ops)]
@@ -463,7 +473,8 @@ def encode_case(schema, doc):
     s = enc_schema(schema, it)
     enc = DocEncoder(schema, it)
     d = enc.document(doc)
-    return [1] + s + d, enc.nfields
+    return [1] + s + d, enc
+
 
 
 def doc_features(doc):
@@ -522,19 +533,108 @@ class Guard:
         return False
 
 
-def impl_conflicts(schema, doc):
+def impl_conflicts(schema, doc, spy=False):
     from graphql import validate
     from graphql.validation import OverlappingFieldsCanBeMergedRule
+    captured = []
+    rule = OverlappingFieldsCanBeMergedRule
+    if spy:
+        from graphql.validation.rules import overlapping_fields_can_be_merged as mod
+
+        class Spy(OverlappingFieldsCanBeMergedRule):
+            def __init__(self, context):
+                super().__init__(context)
+                captured.append(self)
+                self.memo_trace = trace = []
+                try:  # record the has/add decisions of both memo tables
+                    class RecPairSet(mod.PairSet):
+                        __slots__ = ()
+
+                        def has(self, a, b, flag):
+                            r = super().has(a, b, flag)
+                            if r:
+                                trace.append((1, 1, a, b, bool(flag)))
+                            return r
+
+                        def add(self, a, b, flag):
+                            trace.append((0, 1, a, b, bool(flag)))
+                            return super().add(a, b, flag)
+
+                    class RecOrderedPairSet(mod.OrderedPairSet):
+                        __slots__ = ()
+
+                        def has(self, a, b, flag):
+                            r = super().has(a, b, flag)
+                            if r:
+                                trace.append((1, 0, id(a), b, bool(flag)))
+                            return r
+
+                        def add(self, a, b, flag):
+                            trace.append((0, 0, id(a), b, bool(flag)))
+                            return super().add(a, b, flag)
+                    self.compared_fragment_pairs = RecPairSet()
+                    self.compared_fields_and_fragment_pairs = RecOrderedPairSet()
+                except Exception:  # noqa: BLE001
+                    self.memo_trace = None
+        rule = Spy
     try:
         with Guard(GUARD_S):
-            errs = validate(schema, doc, [OverlappingFieldsCanBeMergedRule], max_errors=10 ** 9)
+            errs = validate(schema, doc, [rule], max_errors=10 ** 9)
     except TimeoutError:
-        return ("timeout", None)
+        r = ("timeout", None)
     except RecursionError:
-        return ("raised", "RecursionError")
+        r = ("raised", "RecursionError")
     except Exception as e:  # noqa: BLE001
-        return ("raised", type(e).__name__ + ": " + str(e)[:120])
-    return ("ok", errs != [])
+        r = ("raised", type(e).__name__ + ": " + str(e)[:120])
+    else:
+        r = ("ok", errs != [])
+    return r + (captured[0] if captured else None,) if spy else r
+
+
+def compare_memo(inst, enc, out2, complete):
+    """Memo decisions of the real rule instance vs the memoised model: the model's decision trace must be a
+    prefix of the real one (equal when the model ran to completion), and then the final tables are equal.
+    Returns 'equal', 'differ' or 'unreadable' (internals not accessible: degraded, not a violation)."""
+    try:
+        it = enc.it
+        nff = out2[1]
+        ff = out2[2:2 + nff]
+        nfp = out2[2 + nff]
+        fp = out2[3 + nff:3 + nff + nfp]
+        nlg = out2[3 + nff + nfp]
+        lg = out2[4 + nff + nfp:4 + nff + nfp + nlg]
+        m_ff = {(frozenset((ff[i], ff[i + 1])), ff[i + 2]) for i in range(0, nff, 3)}
+        m_fp = {(fp[i], fp[i + 1], fp[i + 2]) for i in range(0, nfp, 3)}
+        m_log = [tuple(lg[i:i + 5]) for i in range(0, nlg, 5)]
+
+        def fk(k):
+            k = k[:-2] if k.endswith("()") else k
+            return it.map["#" + k]
+        fm_to_set = {}
+        for k, (fm, _sp) in inst.cached_fields_and_fragment_spreads.items():
+            fm_to_set[id(fm)] = k if isinstance(k, int) else id(k)
+        i_log = []
+        for skip, tbl, a, b, flag in inst.memo_trace:
+            if tbl == 1:
+                i_log.append((skip, 1, fk(a), fk(b), int(flag)))
+            else:
+                i_log.append((skip, 0, enc.setcode[fm_to_set[a]], fk(b), int(flag)))
+        if i_log[:len(m_log)] != m_log:
+            return "differ"
+        if not complete:
+            return "equal"
+        if len(i_log) != len(m_log):
+            return "differ"
+        i_ff = {(frozenset((fk(a), fk(b))), int(flag))
+                for a, inner in inst.compared_fragment_pairs._data.items() for b, flag in inner.items()}
+        i_fp = set()
+        for fmid, inner in inst.compared_fields_and_fragment_pairs._data.items():
+            code = enc.setcode[fm_to_set[fmid]]
+            for b, flag in inner.items():
+                i_fp.add((code, fk(b), int(flag)))
+        return "equal" if (i_ff == m_ff and i_fp == m_fp) else "differ"
+    except Exception:  # noqa: BLE001
+        return "unreadable"
 
 
 def uses_typename_alias(doc):
@@ -555,7 +655,7 @@ def uses_typename_alias(doc):
 def compare_documents(ck, m, items):
     """items: list of (sdl, schema, text). Runs impl and model, records violations."""
     from graphql import parse
-    cases, meta = [], []
+    cases, cases2, meta = [], [], []
     for sdl, schema, text in items:
         try:
             doc = parse(text)
@@ -563,7 +663,7 @@ def compare_documents(ck, m, items):
             ck.count("skipped_unparseable")
             continue
         try:
-            wire, nf = encode_case(schema, doc)
+            wire, enc = encode_case(schema, doc)
         except OutOfFragment as e:
             ck.count("skipped_out_of_fragment")
             ck.count("skip: " + str(e))
@@ -574,9 +674,12 @@ def compare_documents(ck, m, items):
                              {"relation": "rule terminates", "schema": sdl, "document": text})
             continue
         cases.append(wire)
-        meta.append((sdl, schema, text, doc))
+        order = [x for o in enc.order for x in o]
+        cases2.append([4, OPT_FUEL, len(enc.order)] + order + wire[1:])
+        meta.append((sdl, schema, text, doc, enc))
     outs = m.run_batch(cases) if cases else []
-    for (sdl, schema, text, doc), out in zip(meta, outs):
+    outs2 = m.run_batch(cases2) if cases2 else []
+    for (sdl, schema, text, doc, enc), out, out2 in zip(meta, outs, outs2):
         collide, cyc, nsp = doc_features(doc)
         rep = {"relation": "validate(schema, doc, [OverlappingFieldsCanBeMergedRule]) != [] <-> spec_conflicts",
                "schema": sdl, "document": text}
@@ -585,7 +688,7 @@ def compare_documents(ck, m, items):
         verdict = out[0]
         if verdict == 2:
             raise RuntimeError(f"harness classified as typed but the model could not type: {text!r}\n{sdl}")
-        st, got = impl_conflicts(schema, doc)
+        st, got, inst = impl_conflicts(schema, doc, spy=True)
         ck.note_case((sdl, text), nontrivial=collide or nsp > 0)
         ck.count("documents_compared")
         if cyc:
@@ -601,6 +704,22 @@ def compare_documents(ck, m, items):
             continue
         want = out[1] == 1
         ck.count("spec_conflict" if want else "spec_mergeable")
+        # the memoised algorithm as modelled (Valid/OverlapOpt.v): same verdict as the specification function,
+        # and (when nothing conflicts) the same final memo tables as the real rule instance
+        if out2[0] in (8, 9):
+            raise RuntimeError(f"wire/encoder error {out2} (memoised model) on {text!r}")
+        if out2[0] == 3:
+            raise RuntimeError(f"memoised model out of fuel on {text!r}")
+        if (out2[0] == 1) != want:
+            ck.violation(f"optmodel:{text!r}",
+                         f"modelled memoised algorithm answers {out2[0] == 1}, specification function {want} "
+                         f"(refutes C14_equiv_statement or the memoised model is wrong): {text!r}",
+                         dict(rep, relation="opt_conflicts = spec_conflicts", model_opt=out2[0] == 1, model_spec=want))
+        elif inst is not None and got == (out2[0] == 1):
+            cmp = compare_memo(inst, enc, out2, complete=out2[0] == 0)
+            ck.count("memo_trace_and_tables_" + cmp)
+            if cmp == "differ":
+                ck.extra.setdefault("memo_differs_on", []).append(text[:300])
         # the same document as an AST without locations (textually equal selection sets are then equal nodes)
         try:
             st2, got2 = impl_conflicts(schema, parse(text, no_location=True))
@@ -738,6 +857,9 @@ def run(tier):
             batch.append((info.sdl, info.schema, text))
         compare_documents(ck, m, batch)
     pairset_scripts(ck, m, 1500 if quick else 20000)
+    if ck.dist.get("memo_trace_and_tables_differ") or ck.dist.get("memo_trace_and_tables_unreadable"):
+        ck.degraded.append("the memo decisions of the real rule instance could not be read or differ from Valid/OverlapOpt.v "
+                           "(the memoised model is then tied by its verdict only)")
     if ck.dist.get("documents_compared", 0):
         ck.samples.append({"schema": "generated SDL", "document": "query Q0 { o0 { x: a x: b ...F0 } } fragment F0 on O0 { ... }"})
     return ck.finish()
@@ -752,7 +874,7 @@ def replay(path):
         st, got = impl_conflicts(schema, doc)
         print("implementation:", st, got)
         try:
-            wire, _ = encode_case(schema, doc)
+            wire, _enc = encode_case(schema, doc)
             out = Model("overlap").run_batch([wire])[0]
             print("model [verdict, spec_conflicts, #fields, #fragments]:", out)
             return 0 if (st == "ok" and out[0] in (0, 1) and got == (out[1] == 1)) else 1
